@@ -2,11 +2,29 @@
    certificate `sig_check`: the document carries exactly the tree's signature along every layout. *)
 From TV Require Import Tree Ast Doc Sig.
 
+(* A Space or Parbreak token is layout whatever characters it is made of (U+2028, U+0085, U+3000 ... are blanks for the
+   lexer and multi-byte for the byte-level `sig`): it contributes nothing to the signature of the tree. *)
+Definition blank_kind (k : kind) : bool := match k with KSpace | KParbreak => true | _ => false end.
 Fixpoint tsig (t : tree) : str :=
   match t with
-  | Leaf _ s _ => sig s
+  | Leaf k s _ => if blank_kind k then [] else sig s
   | Inner _ cs _ => concat (map tsig cs)
   end.
+(* every blank token below t is made of ASCII blanks: then the byte-level signature of t's text is tsig t *)
+Fixpoint ascii_blanks (t : tree) : bool :=
+  match t with
+  | Leaf k s _ => if blank_kind k then match sig s with [] => true | _ => false end else true
+  | Inner _ cs _ => forallb ascii_blanks cs
+  end.
+(* the nodes whose source text can be handed to the printer as one piece: a node protected by `@typstyle off`, the
+   parent of one (a code block whose body is protected), a raw element *)
+Definition verbatim_risk (t : tree) : bool :=
+  a_disabled (attrs_of t) ||
+  match t with
+  | Leaf _ _ _ => false
+  | Inner k cs _ => kind_eqb k KRaw || existsb (fun c => a_disabled (attrs_of c)) cs
+  end.
+Definition verbatim_ok (t : tree) : bool := negb (verbatim_risk t) || ascii_blanks t.
 
 Definition sig_check (t : tree) (d : doc) : bool := wsig d && str_eqb (dsig d) (tsig t).
 
@@ -16,11 +34,11 @@ Proof.
   split; [exact H1|apply str_eqb_eq; exact H2].
 Qed.
 
-(* The scope of the signature certificate (and of the conservation theorem being built on it): blanks are
-   ASCII blanks (a Space or Parbreak leaf holding U+2028, U+0085, U+3000 ... has bytes the byte-level signature keeps
-   while the formatter replaces the token by a break), a comment's own re-alignment keeps its signature (it strips
-   leading blanks of continuation lines, which may be exotic too), and no comment stands between `not` and `in`
-   (the two tokens are emitted as the one operator `not in`, after such a comment). *)
+(* The scope of the signature certificate (and of the conservation theorem being built on it): where a node's source
+   text may be printed as one piece (verbatim_risk) the blank tokens inside it are ASCII blanks (the byte-level
+   signature of the printed text would keep the bytes of U+2028, U+0085, U+3000 ...), a comment's own re-alignment
+   keeps its signature (it strips leading blanks of continuation lines, which may be exotic too), and no comment stands
+   between `not` and `in` (the two tokens are emitted as the one operator `not in`, after such a comment). *)
 From TV Require Import Comment.
 
 Definition comment_sig_ok (t : tree) : bool :=
@@ -45,10 +63,10 @@ Fixpoint sig_scope (t : tree) : bool :=
   match t with
   | Leaf k s _ =>
       match k with
-      | KSpace | KParbreak | KRawTrimmed => match sig s with [] => true | _ => false end
+      | KRawTrimmed => match sig s with [] => true | _ => false end
       | KLineComment | KBlockComment => comment_sig_ok t
       | _ => true
-      end
+      end && verbatim_ok t
   | Inner k cs _ =>
-      (match k with KBinary => not_in_ok cs false | _ => true end) && forallb sig_scope cs
+      (match k with KBinary => not_in_ok cs false | _ => true end) && forallb sig_scope cs && verbatim_ok t
   end.
